@@ -38,7 +38,7 @@ theorem wfCell_atoms {ss : List Str} (hne : ss ≠ []) (h : ∀ s ∈ ss, strOk 
   refine ⟨⟨by simpa using hne, ?_, ?_⟩, ?_⟩
   · intro e he
     obtain ⟨s, hs, rfl⟩ := List.mem_map.mp he
-    exact (strOk_spec (h s hs).1).2.2
+    trivial
   · intro _ hl
     rw [List.getLast?_map] at hl
     cases hg : ss.getLast? with
@@ -149,7 +149,7 @@ theorem printNat_keyChar (i : Nat) : ∀ c ∈ printNat i, keyChar c = true := b
   intro c hc
   obtain ⟨d, hd, rfl⟩ := (printNat_spec i).1 c hc
   have h := digitChar_ne d hd
-  simp [keyChar, h.2.2.2.2.2.1, h.2.2.2.2.2.2.1, h.2.2.2.2.2.2.2.1, digitChar_not_ws d hd]
+  simp [keyChar, h.2.2.2.2.2.1, h.2.2.2.2.2.2.1, h.2.2.2.2.2.2.2, digitChar_not_ws d hd]
 
 theorem printNat_no_dot (i : Nat) : ∀ c ∈ printNat i, c ≠ '.' := by
   intro c hc
